@@ -23,8 +23,9 @@ class SDVRP(Adapter):
             spec = [(3, (1, 2, 3), (3, 4), [(0, 0)]),
                     (2, (1, 3, 5), (2, 4), [(1, 2)])]
         else:
-            spec = [(3, (1, 2, 3, 5), (2, 3, 4, 6), [(0, 0), (1, 2)]),
-                    (4, (1, 2, 3), (3, 4), [(2, 3)]),
+            spec = [(3, (1, 2, 3, 4), (2, 3, 4), [(0, 0)]),
+                    (3, (2, 3, 5), (4, 6), [(1, 2)]),
+                    (4, (1, 3), (3, 4), [(2, 3)]),
                     (2, (1, 4, 7), (2, 3), [(3, 1)])]
         for (N, dems, caps, tmpl) in spec:
             for (w, rot) in tmpl:
